@@ -50,6 +50,6 @@ Next == /\ l <= Len(Tr) /\ l' = l + 1
            ELSE UNCHANGED <<bad, ncall, nquery>>
 TSpec == Init /\ [][Next]_vars
 Verdict == l = Len(Tr) + 1 =>
-    PrintT(<<"VERDICT", ToJson([bad |-> IF Len(bad) > 300 THEN SubSeq(bad, 1, 300) ELSE bad, nbad |-> Len(bad), scenarios |-> ncall, events |-> ncall, lines |-> Len(Tr), queries |-> nquery])>>)
+    PrintT(<<"VERDICT", ToJson([bad |-> IF Len(bad) > 20000 THEN SubSeq(bad, 1, 20000) ELSE bad, nbad |-> Len(bad), scenarios |-> ncall, events |-> ncall, lines |-> Len(Tr), queries |-> nquery])>>)
 Accepted == TLCGet("stats").diameter - 1 = Len(Tr)
 =============================================================================
